@@ -308,12 +308,32 @@ func build(r *R) error {
 		res = errors.WithDomain(k0, errors.Domain(in(r, 0)))
 		r.S = []string{in(r, 0)}
 	case "tags":
+		// In = k1,v1,k2,v2,...; NIn[i] = kind of value i: 0 plain string, 1 Safe(value), 2 nil
 		ctx := context.Background()
+		var kv []string
 		for i := 0; i+1 < len(r.In); i += 2 {
-			ctx = logtags.AddTag(ctx, r.In[i], r.In[i+1])
+			var val interface{} = r.In[i+1]
+			switch nin(r, i/2) {
+			case 1:
+				val = errors.Safe(r.In[i+1])
+			case 2:
+				val = nil
+			}
+			ctx = logtags.AddTag(ctx, r.In[i], val)
 		}
 		res = errors.WithContextTags(k0, ctx)
-		r.S = append([]string{}, r.In...)
+		if b := logtags.FromContext(ctx); b != nil {
+			for _, t := range b.Get() {
+				kv = append(kv, t.Key(), t.ValueStr())
+			}
+		}
+		r.S = append(kv, "\x00RED")
+		if res != nil && k0 != nil && len(kv) > 0 {
+			// the layer's safe details, as computed by the library + redact for the real value kinds
+			if sd, ok := res.(errbase.SafeDetailer); ok {
+				r.S = append(r.S, sd.SafeDetails()...)
+			}
+		}
 	case "assertion":
 		res = errors.WithAssertionFailure(k0)
 	case "safedetails":
